@@ -81,6 +81,14 @@ def check_negra(case):
         for step in case["pre"]:
             if step[0] == "mark":
                 tree = call("C15/pre/negra_mark_heads", transform.negra_mark_heads, tree)
+            elif step[0] == "rules":
+                tree = call("C15/pre/mark_heads_by_rules", transform.mark_heads_by_rules, tree, mark_heads_preset=step[1])
+            elif step[0] == "all":
+                stack = [tree]
+                while stack:
+                    node = stack.pop()
+                    node.data["head"] = True
+                    stack.extend(node.children)
             else:
                 tree = apply_pre(tree, [step])
         try:
@@ -109,6 +117,20 @@ def check_rules(case):
         other = "ptb" if preset == "negra" else "negra"
         call("C15/mark_heads_by_rules", transform.mark_heads_by_rules, M.build(case["tree"], T), mark_heads_preset=other)
     tree = M.build(case["tree"], T)
+    premark = case.get("premark")
+    if premark:
+        # marks already on the SAME tree (an earlier marker of either kind, or flags set by hand): "every other child
+        # is marked as non-head" holds whatever was there before
+        if premark == "negra":
+            tree = call("C15/pre/negra_mark_heads", transform.negra_mark_heads, tree)
+        elif premark == "other":
+            tree = call("C15/pre/mark_heads_by_rules", transform.mark_heads_by_rules, tree, mark_heads_preset="ptb" if preset == "negra" else "negra")
+        else:
+            stack = [tree]
+            while stack:
+                node = stack.pop()
+                node.data["head"] = True
+                stack.extend(node.children)
     result = call("C15/mark_heads_by_rules", transform.mark_heads_by_rules, tree, mark_heads_preset=preset)
 
     def expect(node):
@@ -187,6 +209,7 @@ def gen_table(ctx):
             ctx.inconclusive = True
             complete = False
             break
+        case["premark"] = [None, "negra", "other", "all"][i % 4]
         res = []
         try:
             ctx.run_case(lambda c: res.append(check_rules(c)), case)
@@ -217,6 +240,7 @@ def rules_case(draw):
             tok["n"] += extra
         for i in range(extra):
             root["c"].append({"w": "e%d" % i, "p": draw(st.sampled_from(["$.", "NN", "zz"])), "n": i + 1, "e": "--", "lem": "--", "m": "--"})
+    case["premark"] = draw(st.sampled_from([None, None, "negra", "other", "all"]))
     return case
 
 
@@ -235,9 +259,9 @@ def gen_rules_random(ctx):
     pos = st.sampled_from(["NN", "VVFIN", "ART", "nn", "VB", "IN", "$.", "zz"])
 
     def body(case):
-        res = check_rules({"preset": case["preset"], "tree": case["tree"]})
+        res = check_rules({"preset": case["preset"], "tree": case["tree"], "premark": case["premark"]})
         ctx.count(key=case, nontrivial=res, classes=["rules-random:" + case["preset"]])
-    strategy = st.fixed_dictionaries({"preset": st.sampled_from(["negra", "ptb"]),
+    strategy = st.fixed_dictionaries({"preset": st.sampled_from(["negra", "ptb"]), "premark": st.sampled_from([None, "negra", "other", "all"]),
                                       "tree": S.tree_model(max_tokens=8, labels=labels, pos=pos, max_arity=5)})
     ctx.hyp(strategy, body, max_examples=600 if ctx.tier == "quick" else 4000)
 
@@ -254,7 +278,7 @@ def gen_negra(ctx):
         ctx.count(key=case["root"], nontrivial=res, classes=["negra:" + h for h in set(hist)])
         if res:
             ctx.sample(case["root"], cap=1)
-    steps = st.one_of(st.just(["mark"]), st.tuples(st.just("insert"), st.integers(0, 20), st.sampled_from([",", "x"])).map(list),
+    steps = st.one_of(st.just(["mark"]), st.just(["rules", "negra"]), st.just(["rules", "ptb"]), st.just(["all"]), st.tuples(st.just("insert"), st.integers(0, 20), st.sampled_from([",", "x"])).map(list),
                       st.tuples(st.just("delete"), st.integers(0, 20)).map(list))
     strategy = st.builds(lambda tree, pre: dict(tree, pre=pre), S.tree_model(max_tokens=10 if ctx.tier == "quick" else 14, edges=edges, max_arity=6, disc=0.4),
                          st.one_of(st.just([]), st.just([]), st.lists(steps, min_size=1, max_size=3)))
